@@ -731,7 +731,7 @@ fn rule_c01_drain(ctx: &Ctx, out: &mut Vec<Violation>) {
                 (Some(id), true) => id,
                 _ => continue,
             };
-            if !(create.ret_seq_or_max() < pc.inv_seq) {
+            if !(inst.established_seq < pc.inv_seq) {
                 continue;
             }
             if m.topic_delete_invoked_before(&inst.topic, pc.ret_seq.unwrap()) {
@@ -741,7 +741,7 @@ fn rule_c01_drain(ctx: &Ctx, out: &mut Vec<Violation>) {
             let list = m.deliveries_by_key.get(&key);
             match list {
                 None => {
-                    out.push(v("C01.lost", "lost", format!("message {} (publish call {}, token {}) was never delivered on {} (created seq {}, publish invoked seq {})", id, p.call, p.token, inst.name, create.ret_seq_or_max(), pc.inv_seq)));
+                    out.push(v("C01.lost", "lost", format!("message {} (publish call {}, token {}) was never delivered on {} (exists since seq {}, publish invoked seq {})", id, p.call, p.token, inst.name, inst.established_seq, pc.inv_seq)));
                 }
                 Some(list) => {
                     // Was any of its deliveries ever named by an acknowledgement?
@@ -902,7 +902,7 @@ fn rule_c08(ctx: &Ctx, out: &mut Vec<Violation>) {
             .keys()
             .filter_map(|n| m.unique_sub(n))
             .filter(|i| i.topic == *topic && !m.sub_delete_ever(&i.name))
-            .map(|i| m.calls[&i.create_call].ret_seq_or_max())
+            .map(|i| i.established_seq)
             .min();
         let since = match attached_since {
             Some(s) => s,
@@ -1261,15 +1261,13 @@ fn rule_seq(ctx: &Ctx, out: &mut Vec<Violation>) {
         if m.sub_delete_ever(&sub) || inst.push.is_some() || m.unique_topic(&inst.topic).is_none() {
             continue;
         }
-        if m.topic_deletes.get(&inst.topic).map(|d| !d.is_empty()).unwrap_or(false) {
-            continue;
-        }
+        // (a topic deleted later does not matter: the subscription keeps what it already holds)
         let create = &m.calls[&inst.create_call];
         // messages this subscription must hold
         let msgs: Vec<&Published> = m
             .published
             .iter()
-            .filter(|p| p.topic == inst.topic && p.msg_id.is_some() && m.calls[&p.call].returned_ok() && create.ret_seq_or_max() < m.calls[&p.call].inv_seq)
+            .filter(|p| p.topic == inst.topic && p.msg_id.is_some() && m.calls[&p.call].returned_ok() && inst.established_seq < m.calls[&p.call].inv_seq)
             .collect();
         let probes: Vec<&Call> = m
             .calls
